@@ -58,7 +58,7 @@ func famqSystem(c *Ctx) {
 	for i := 0; i < c.pick(12, 200); i++ {
 		add("lifecycle")
 	}
-	for i := 0; i < c.pick(130, 4000); i++ {
+	for i := 0; i < c.pick(100, 4000); i++ {
 		add("random")
 	}
 }
@@ -100,7 +100,7 @@ func famqCursor(c *Ctx) {
 	for i := 0; i < c.pick(40, 400); i++ {
 		add("d7")
 	}
-	for i := 0; i < c.pick(600, 12000); i++ {
+	for i := 0; i < c.pick(500, 12000); i++ {
 		add("random")
 	}
 }
